@@ -1,40 +1,10 @@
 // harness-file: v5_subscribe
 // harness: c18_table_subscribe_n2
 // solver-failed-checks: ["\"[C18] subscribe accepts exactly the properties (and repetitions) the specification table allows\""]
-// native outcomes: {"dev": "error:  a Cargo feature instead\n   = help: or consider adding in `Cargo.toml` the `check-cfg` lint config for the lint:\n            [lints.rust]\n            unexpected_cfgs = { level = \"warn\", check-cfg = ['", "release": "error:  a Cargo feature instead\n   = help: or consider adding in `Cargo.toml` the `check-cfg` lint config for the lint:\n            [lints.rust]\n            unexpected_cfgs = { level = \"warn\", check-cfg = ['"}
+// native outcomes: {"dev": "fails: [C18] subscribe accepts exactly the properties (and repetitions) the specification table allows", "release": "fails: [C18] subscribe accepts exactly the properties (and repetitions) the specification table allows"}
 /// Test generated for harness `mqtt::packet::v5_0::subscribe::verif_harness::c18_table_subscribe_n2` 
 ///
 /// Check for `assertion`: ""[C18] subscribe accepts exactly the properties (and repetitions) the specification table allows""
-///
-/// # Warning
-///
-/// Concrete playback tests combined with stubs or contracts is highly
-/// experimental, and subject to change.
-///
-/// The original harness has stubs which are not applied to this test.
-/// This may cause a mismatch of non-deterministic values if the stub
-/// creates any non-deterministic value.
-/// The execution path may also differ, which can be used to refine the stub
-/// logic.
-
-#[test]
-fn kani_concrete_playback_c18_table_subscribe_n2_4964115243782516938() {
-    let concrete_vals: Vec<Vec<u8>> = vec![
-        // 11
-        vec![11],
-        // 4026531841
-        vec![1, 0, 0, 240],
-        // 11
-        vec![11],
-        // 2097154
-        vec![2, 0, 32, 0],
-    ];
-    kani::concrete_playback_run(concrete_vals, c18_table_subscribe_n2);
-}
-
-/// Test generated for harness `mqtt::packet::v5_0::subscribe::verif_harness::c18_table_subscribe_n2` 
-///
-/// Check for `cover`: "an accepted combination exists"
 ///
 /// # Warning
 ///
